@@ -128,7 +128,7 @@ def fault_session(kind, fault, step, settle=40.0, scb="ok", second=None, mapping
             if fault == "eof":
                 c.feed_eof()
             elif fault == "reset":
-                c.reset(simgw.serial_loss_exception() if kind == "waveshare" else ConnectionResetError(104, "reset by peer"))
+                c.reset(simgw.link_loss(kind))
             elif fault == "garbage_eof":
                 c.feed(b"\x00\xffgarbage\x01\x02")
                 c.feed_eof()
@@ -145,7 +145,7 @@ def fault_session(kind, fault, step, settle=40.0, scb="ok", second=None, mapping
                 c.feed(bytes((0x41 + (i * 7) % 50) for i in range(70_000)))
             elif fault == "write_error":
                 c.fail_write_after = 0
-                c.fail_exc = BrokenPipeError(32, "broken pipe") if kind != "waveshare" else simgw.serial_loss_exception()
+                c.fail_exc = simgw.link_loss(kind, write=True)
                 sim.spawn("send", make_send_message(kind))
 
         def on_accept(conn):
@@ -153,7 +153,7 @@ def fault_session(kind, fault, step, settle=40.0, scb="ok", second=None, mapping
                 # the gateway accepts and drops the link in the same breath (a proxy whose backend is down)
                 info.update(injected=True, inject_step=loop.steps, inject_time=loop.time() - 1000.0, conn_at_fault=0)
                 sim.ev("fault", fault=fault, conn=0)
-                conn.reset(simgw.serial_loss_exception() if kind == "waveshare" else ConnectionResetError(104, "reset by peer"))
+                conn.reset(simgw.link_loss(kind))
                 return
             # every accepted connection delivers one frame tagged with its connection number
             def later():
@@ -434,7 +434,7 @@ def storm(spec, acc):
                 if f_ == "eof":
                     c.feed_eof()
                 elif f_ == "reset":
-                    c.reset(simgw.serial_loss_exception() if kind == "waveshare" else ConnectionResetError(104, "reset"))
+                    c.reset(simgw.link_loss(kind))
                 elif f_ == "garbage_eof":
                     c.feed(b"\x00\xffgarbage")
                     c.feed_eof()
